@@ -32,6 +32,9 @@ REG_RULES = [
     'p(1..3).', 'p(X..Y).', 'p(a..3).', 'p(1..#sup).', 'p((1..2)..3).', 'p((1..2) + 1).', 'p(1..2, X + 1).', '{p(1..X)} :- q(X).',
     'p(X) :- q(1..2).', 'p(X) :- q(X, 1..2).', 'p(X) :- q(X, Y), not r(1, 2..3).', 'p(X) :- X = 1..2..3.', 'p(X) :- q(X + 1).', 'p(X) :- q(a + 1).', 'p(X) :- X = 1..3.', 'p(X) :- 1..3 = X.', 'p(X) :- X < 1..3.',
     'p(X) :- X = a..3.', 'p(X) :- X = Y + 1, q(Y).', 'p(X) :- X != a, X < #sup.', 'p(X) :- X = (1..2) + 1.', ':- p(X / 2).',
+    # every relation against an interval, on either side
+    'p(X) :- q(X), X != 1..3.', 'p(X) :- q(X), 1..3 != X.', 'p(X) :- X <= 1..3.', 'p(X) :- X > 1..3.', 'p(X) :- X >= 1..3.', 'p(X) :- 1..3 < X.',
+    'p(X) :- q(X), X = 1..3, X != 2..3.',
     ':- p(X), X * X = 4.', 'p(X) :- not q(X - 1), not not q(2 * X).', 'p(X) :- q(-(a)).', 'p(X) :- q(-(1..2)).', 'p(X) :- X = 1..Y * 2, q(Y).',
 ]
 
